@@ -4,7 +4,7 @@ from collections import deque
 
 from .guards import prov, op_prov, bool_condition, bool_edge_value, switch_edges, Cmp, check_guard
 from .lib import (op_local, op_const, op_place, place_local, place_fields, rvalue_operands,
-                  rvalue_places, operand_scalar, promoted_consts, last_seg, CallGraph)
+                  rvalue_places, operand_scalar, promoted_consts, last_seg, fn_key, CallGraph)
 
 EXPLANATION = (
     "Decides the structural clause of C18: the hand-written Felt252Serde implementations write and read "
@@ -416,6 +416,7 @@ def run(ctx):
             ctx.ob("R18.3", "id-identity-ignores-debug_name:" + p, False, "identity of an id depends on debug_name", f.where())
     ctx.ob("R18.3", "id-identity-ignores-debug_name", True, "no Eq/Hash/Ord impl reads debug_name", "")
 
+    _id_replacers(ctx, ctx.load(["cairo_lang_sierra", "cairo_lang_sierra_generator"]))
     _controls(ctx, F, serde_fn)
 
 
@@ -544,3 +545,53 @@ def _controls(ctx, F, serde_fn):
     m = Fn(d, de.crate)
     dmap, _ = deserialize_tag_map(F, m, "program::GenericArg")
     ctx.control("swapped tags 3/4 on the reading side", dmap is not None and dmap.get(3) == ("Libfunc", False))
+
+
+# ------------------------------------------------------------------------------------------------
+# R18.5 every routine that renames the ids inside generic arguments handles the same kinds of argument
+
+def _id_replacers(ctx, F):
+    """Routines that dispatch on the kind of a GenericArg and rename the id it holds (debug names, id replacement)
+    are siblings: each must act on every kind of argument that any of them acts on (Type, UserFunc, Libfunc hold ids
+    with their own name maps) - an argument kind renamed in the statements but not inside the type declarations makes
+    the printed program refer to one entity under two names."""
+    GA = "cairo_lang_sierra::program::GenericArg"
+    adt = F.adts.get(GA)
+    if not adt:
+        ctx.ob("R18.5", "GenericArg", False, "the GenericArg type is not in the facts", "")
+        return
+    vnames = [v["name"] for v in adt["variants"]]
+    sites = []
+    for p, f in sorted(F.fns.items()):
+        if not f.body or f.crate not in ("cairo_lang_sierra", "cairo_lang_sierra_generator"):
+            continue
+        for bb, t in f.switches():
+            si = f.switch_info(bb)
+            if not si or si[0] != "disc" or si[2] != GA:
+                continue
+            acting = set()
+            succs = f.succ(bb)
+            for v, s_ in t[2]:
+                if not isinstance(v, int) or v >= len(vnames):
+                    continue
+                others = [x for x in succs if x != s_]
+                # blocks only this arm reaches before re-joining the other arms
+                own = f.reachable_blocks(s_, avoid=set()) - set().union(*[f.reachable_blocks(o, avoid={s_}) | {o} for o in others]) if others else {s_}
+                own |= {s_} if s_ not in set().union(*[f.reachable_blocks(o) | {o} for o in others]) else set()
+                calls = [c for c in f.calls() if c.bb in own and "replace" in c.name()]
+                if calls:
+                    acting.add(vnames[v])
+            if acting:
+                sites.append((f, bb, acting))
+    required = set().union(*[a for _, _, a in sites]) if sites else set()
+    ords = {}
+    for f, bb, acting in sites:
+        ctx.analysed(f)
+        k = fn_key(f.path)
+        ords[k] = ords.get(k, 0) + 1
+        missing = required - acting
+        ctx.ob("R18.5", "generic-arg-ids:%s#%d" % (k, ords[k]), not missing,
+               "renames the ids of generic arguments of kind %s" % sorted(acting) if not missing else
+               "renames the ids of generic arguments of kind %s only; its siblings also rename %s: an id of that kind inside these arguments keeps its "
+               "old name while the rest of the program uses the new one" % (sorted(acting), sorted(missing)), f.where())
+    ctx.floor("routines renaming ids inside generic arguments", len(sites), 2)
